@@ -62,7 +62,7 @@ func (x *Exec) step(ins ssa.Instruction, within map[*ssa.BasicBlock]bool) {
 		el := i.Type().Underlying().(*types.Slice).Elem()
 		so := x.smt.sortOf(el)
 		sv, svs := "SH."+sortTag(so), "(Array Int (Array Int "+so+"))"
-		x.setSV(sv, svs, "(store "+x.getSV(sv, svs)+" "+r+" ((as const (Array Int "+so+")) "+x.smt.zero(el)+"))")
+		x.setSV(sv, svs, "(store "+x.getSV(sv, svs)+" "+r+" "+x.zeroArray(so, x.smt.zero(el))+")")
 		x.bind(i, tv("(mk-slice "+r+" 0 "+n+")"))
 	case *ssa.MakeMap:
 		r := x.newRef()
@@ -197,7 +197,7 @@ func (x *Exec) doAlloc(i *ssa.Alloc) {
 		r := x.newRef()
 		so := x.smt.sortOf(u.Elem())
 		sv, svs := "SH."+sortTag(so), "(Array Int (Array Int "+so+"))"
-		x.setSV(sv, svs, "(store "+x.getSV(sv, svs)+" "+r+" ((as const (Array Int "+so+")) "+x.smt.zero(u.Elem())+"))")
+		x.setSV(sv, svs, "(store "+x.getSV(sv, svs)+" "+r+" "+x.zeroArray(so, x.smt.zero(u.Elem()))+")")
 		v := tv(x.smt.define(x.vname(i), "Slice", fmt.Sprintf("(mk-slice %s 0 %d)", r, u.Len())))
 		v.KnownLen = int(u.Len())
 		x.vals[i] = v
@@ -463,8 +463,10 @@ func (x *Exec) doIndexAddr(i *ssa.IndexAddr) {
 		return
 	}
 	if isByteSlice(i.X.Type()) {
-		x.markA("address of []byte element")
-		x.vals[i] = Val{Loc: &Loc{Kind: LCell, SV: "cell.junkbyte", Sort: "Int", Elem: elem}, KnownLen: -1}
+		// element of a byte string value: readable, not writable (byte strings are values)
+		bt := x.termOf(base)
+		x.safe("index", "bytes", "(and (<= 0 "+idx+") (< "+idx+" (strlen "+bt+")))", i.Pos())
+		x.vals[i] = Val{Loc: &Loc{Kind: LByteRO, Ref: bt, Idx: idx, Elem: elem}, KnownLen: -1}
 		return
 	}
 	bt := x.termOf(base)
